@@ -69,10 +69,13 @@ Proof.
   destruct (committed_forever _ r oc b (step_inv _ (OCommit r) Ia) C) as [I' [C' _]]. auto.
 Qed.
 
-Theorem commit_exact_partial : forall s p o kvs r s1 ops x s2,
+(** The guard: no empty MemSet on [r] after [r] was rolled back or the store was restarted
+    (then nothing waits under [r] any more and the shortcut leaves a marker for a root
+    that may not exist).  Implied by [still_pending] and by [no_marker_on]. *)
+Theorem commit_exact_general : forall s p o kvs r s1 ops x s2,
   inv s -> committed s p o ->
   mem_set s p kvs = (RRoot r, s1) ->
-  no_marker_on r ops = true ->
+  no_marker_after_discard r ops = true ->
   step (run s1 ops) (OCommit r) = (RRoot x, s2) ->
   exists oc, o_elements oc = apply_writes (o_elements o) kvs /\ committed s2 r oc /\
     forall later k,
@@ -80,11 +83,11 @@ Theorem commit_exact_partial : forall s p o kvs r s1 ops x s2,
       read (restart (run s2 later)) r k = sget (apply_writes (o_elements o) kvs) k.
 Proof.
   intros s p o kvs r s1 ops x s2 I C HM G HC.
-  destruct (mem_set_spec _ _ _ _ _ _ I C HM) as [oc [T [HE [M _]]]].
+  destruct (mem_set_spec _ _ _ _ _ _ I C HM) as [oc [T [HE [M [A _]]]]].
   assert (I1 : inv s1).
   { pose proof (step_inv s (OMemSet p kvs) I) as X. cbn [step] in X. rewrite HM in X. exact X. }
   destruct (run_inv_grows ops s1 I1) as [I2 _].
-  pose proof (marker_safe_run ops s1 r oc I1 T M G) as M2.
+  pose proof (marker_safe_run_general ops s1 r oc I1 T M A G) as M2.
   assert (E : fst (step (run s1 ops) (OCommit r)) = RRoot x) by (rewrite HC; reflexivity).
   pose proof (commit_ack _ _ _ _ I2 T M2 E) as C2. rewrite HC in C2. simpl in C2.
   assert (I3 : inv s2).
@@ -94,8 +97,32 @@ Proof.
   rewrite R1, R2, HE. auto.
 Qed.
 
-(** the statement without the guard, and its refutation: finding C04-1 *)
-Definition commit_exact_full : Prop := forall s p o kvs r s1 ops x s2 k,
+(** the update is still pending when it is committed: whatever else happens in between
+    (empty MemSets on its root included), the acknowledged Commit makes its content readable *)
+Theorem commit_exact : forall s p o kvs r s1 ops x s2,
+  inv s -> committed s p o ->
+  mem_set s p kvs = (RRoot r, s1) ->
+  still_pending r ops = true ->
+  step (run s1 ops) (OCommit r) = (RRoot x, s2) ->
+  exists oc, o_elements oc = apply_writes (o_elements o) kvs /\ committed s2 r oc /\
+    forall later k,
+      read (run s2 later) r k = sget (apply_writes (o_elements o) kvs) k /\
+      read (restart (run s2 later)) r k = sget (apply_writes (o_elements o) kvs) k.
+Proof.
+  intros s p o kvs r s1 ops x s2 I C HM G HC.
+  eapply commit_exact_general; eauto using still_pending_general.
+Qed.
+
+Theorem commit_exact_guards : forall r ops,
+  (still_pending r ops = true -> no_marker_after_discard r ops = true) /\
+  (no_marker_on r ops = true -> no_marker_after_discard r ops = true).
+Proof. intros r ops. split; [apply still_pending_general|apply no_marker_general]. Qed.
+
+(** Why a guard remains: once the update of [r] has been rolled back, an empty MemSet on [r]
+    is a NEW update of a root the store does not know; it is accepted without looking at the
+    database and its Commit is acknowledged.  (The specification has no obligation for an
+    update of an unknown parent; this is not the pending update of the first MemSet.) *)
+Definition commit_exact_unguarded : Prop := forall s p o kvs r s1 ops x s2 k,
   inv s -> committed s p o ->
   mem_set s p kvs = (RRoot r, s1) ->
   step (run s1 ops) (OCommit r) = (RRoot x, s2) ->
@@ -105,16 +132,25 @@ Definition wk : bytes := [107%N; 49%N].      (* "k1" *)
 Definition wv : bytes := [118%N; 49%N].      (* "v1" *)
 Definition wroot : xroot := XH (HLeaf wk wv).
 
-Theorem commit_exact_refuted : ~ commit_exact_full.
+Theorem commit_exact_unguarded_false : ~ commit_exact_unguarded.
 Proof.
   intros F.
   specialize (F (st0 false) XNil None [(wk, wv)] wroot
                 (snd (mem_set (st0 false) XNil [(wk, wv)]))
-                [OMemSet wroot []] wroot
-                (snd (step (run (snd (mem_set (st0 false) XNil [(wk, wv)])) [OMemSet wroot []]) (OCommit wroot)))
+                [ORollback wroot; OMemSet wroot []] wroot
+                (snd (step (run (snd (mem_set (st0 false) XNil [(wk, wv)])) [ORollback wroot; OMemSet wroot []]) (OCommit wroot)))
                 wk (inv_st0 false) eq_refl eq_refl eq_refl).
   vm_compute in F. discriminate.
 Qed.
+
+(** the history of the former finding 1 (MemSet, empty MemSet on the result, Commit) now reads
+    what the first MemSet computed *)
+Lemma former_witness_exact :
+  let s1 := snd (mem_set (st0 false) XNil [(wk, wv)]) in
+  let s2 := snd (step (run s1 [OMemSet wroot []]) (OCommit wroot)) in
+  fst (step (run s1 [OMemSet wroot []]) (OCommit wroot)) = RRoot wroot /\
+  read s2 wroot wk = Some wv /\ read (restart s2) wroot wk = Some wv.
+Proof. vm_compute. auto. Qed.
 
 (** ** 3. forks of one parent do not disturb each other *)
 
@@ -154,14 +190,11 @@ Proof.
   assert (G2 : grows s1 s2).
   { pose proof (step_grows s1 (OMemSet p kvs2) I1) as X. cbn [step] in X. rewrite H2 in X. exact X. }
   assert (C2 : committed s2 p o) by (apply (committed_grows s1); auto).
-  destruct (mem_set_spec _ _ _ _ _ _ I C H1) as [oc1 [T1 [E1 [M1 Q1]]]].
+  destruct (mem_set_spec _ _ _ _ _ _ I C H1) as [oc1 [T1 [E1 [M1 [A1 _]]]]].
   destruct (mem_set_spec _ _ _ _ _ _ I1 C1 H2) as [oc2 [T2 [E2 [M2 _]]]].
   assert (M1' : marker_safe r1 oc1 s2).
   { pose proof (marker_safe_step s1 r1 oc1 (OMemSet p kvs2) I1 T1 M1) as X.
-    cbn [step] in X. rewrite H2 in X. apply X.
-    destruct (empty_memset_on r1 (OMemSet p kvs2)) eqn:E; [right|left; reflexivity].
-    simpl in E. destruct kvs2; [|discriminate]. apply xroot_eqb_eq in E.
-    rewrite (Q1 E). subst r1. exact C1. }
+    cbn [step] in X. rewrite H2 in X. apply X. right. exact A1. }
   split; [|split].
   - intros HIn. destruct (acked_commit ops s2 r1 oc1 I2 T1 M1' (acts_no_marker _ _ _ _) HIn) as [I3 C3].
     intros k. rewrite <- E1. split; apply read_committed; auto using restart_inv.
